@@ -229,6 +229,9 @@ def run_case(case):
                             tls_one(s2, {"layer": "C", "class": c01.class_name(v, code, etm, hs), "shape": {d1: str(val), d2: str(val2)}})
     else:
         scs = [{}] if case["d1"] is None else [{case["d1"]: v} for v in c02.ALTS[case["d1"]]]
+        if case["d1"] is None:
+            # handshake material on BOTH sides of the stream data inside one packet (CRYPTO | STREAM | CRYPTO), and other pairs
+            scs += [{"before": b, "after": a} for b in ("CRYPTO", "NEW_TOKEN", "ACK") for a in ("CRYPTO", "HANDSHAKE_DONE", "PADDING")]
         for sc in scs:
             if not c02.valid(sc):
                 continue
